@@ -139,9 +139,10 @@ class GlomError(Exception):
         bases = (GlomError,) if issubclass(GlomError, exc_type) else (exc_type, GlomError)
         # exception classes with a __str__ of their own (KeyError, OSError, ...) come
         # first in the wrapper's MRO: the message must still be GlomError's (the trace)
-        exc_wrapper_type = type(f"GlomError.wrap({exc_type.__name__})", bases,
-                                {'__str__': GlomError.__str__})
         try:
+            # (creating the class can fail too: a class may refuse to be subclassed)
+            exc_wrapper_type = type(f"GlomError.wrap({exc_type.__name__})", bases,
+                                    {'__str__': GlomError.__str__})
             wrapper = exc_wrapper_type(*exc.args)
             if wrapper.args != exc.args:  # re-creation changed the args
                 return exc
